@@ -15,7 +15,7 @@ import (
 	"verifharness/internal/val"
 )
 
-var c16Floor = []string{"tpl.echo", "tpl.where", "tpl.in", "tpl.between", "tpl.func", "tpl.limit", "tpl.adjacent", "tpl.repeat", "tpl.protected.single", "tpl.protected.double", "tpl.protected.backtick", "tpl.protected.comment", "tpl.pg-ident", "comment.tab", "comment.backslash-eol", "arg.float.huge", "err.missing.huge",
+var c16Floor = []string{"tpl.echo", "tpl.where", "tpl.in", "tpl.between", "tpl.func", "tpl.limit", "tpl.adjacent", "tpl.repeat", "tpl.protected.single", "tpl.protected.double", "tpl.protected.backtick", "tpl.protected.comment", "tpl.pg-ident", "comment.tab", "comment.backslash-eol", "arg.float.huge", "err.missing.huge", "comment.hash", "tpl.badutf8", "tpl.protected.backslash", "err.nan",
 	"arg.string", "arg.int", "arg.negint", "arg.float", "arg.bool", "arg.nil", "str.quote", "str.backslash", "str.comment", "str.control", "str.keyword", "str.multibyte", "err.missing", "err.unused", "err.dollar0", "prepared", "concurrent"}
 
 func init() {
@@ -177,6 +177,7 @@ type c16Tpl struct {
 	slots  []int    // argument index (0-based) of each placeholder occurrence
 	args   []any
 	kind   string
+	note   string // variant marker for the expectation
 }
 
 func (t c16Tpl) text() string {
@@ -244,6 +245,19 @@ func c16Run(c *fw.Case) {
 	if strings.HasPrefix(force, "tpl.") {
 		kind = force
 	}
+	variant := -1
+	switch force {
+	case "tpl.badutf8":
+		kind, variant = "tpl.protected.comment", 5
+	case "comment.hash":
+		kind, variant = "tpl.protected.comment", 4
+	case "comment.tab":
+		kind, variant = "tpl.protected.comment", 1
+	case "comment.backslash-eol":
+		kind, variant = "tpl.protected.comment", 3
+	case "tpl.protected.backslash":
+		kind, variant = "tpl.protected.single", 0
+	}
 	if force == "concurrent" {
 		force = ""
 	}
@@ -252,7 +266,7 @@ func c16Run(c *fw.Case) {
 		return
 	}
 	if force == "" && c.Chance(0.03) {
-		c16Errors(c, gen.Pick(c.R, []string{"err.missing", "err.unused", "err.dollar0"}))
+		c16Errors(c, gen.Pick(c.R, []string{"err.missing", "err.unused", "err.dollar0", "err.nan"}))
 		return
 	}
 	argKind := ""
@@ -311,13 +325,23 @@ func c16Run(c *fw.Case) {
 		t.pieces, t.slots = []string{"SELECT ", " AS a, ", " AS b, ", " AS c FROM dual"}, []int{a, b, a}
 	case "tpl.protected.single":
 		t.pieces, t.slots = []string{"SELECT '$2 $1 it''s' AS a, ", " AS v FROM dual"}, []int{A("")}
+		if variant == 0 || c.Chance(0.4) {
+			// a backslash-escaped quote does not close the literal
+			t.pieces = []string{"SELECT '$2 it\\'s $1 \\\\' AS a, ", " AS v FROM dual"}
+			t.note = "backslash"
+			feats = append(feats, "tpl.protected.backslash")
+		}
 	case "tpl.protected.double":
 		t.pieces, t.slots = []string{"SELECT \"$3 $1\" AS a, ", " AS v FROM dual"}, []int{A("")}
 	case "tpl.protected.backtick":
 		t.pieces, t.slots = []string{"SELECT ", " AS `v$2` FROM dual"}, []int{A("")}
 	case "tpl.protected.comment":
 		t.pieces, t.slots = []string{"SELECT /* $2 ' */ ", " AS v FROM dual -- $3 '"}, []int{A("")}
-		switch c.Intn(5) {
+		v := c.Intn(7)
+		if variant >= 0 {
+			v = variant
+		}
+		switch v {
 		case 0:
 			t.pieces = []string{"SELECT ", " AS v -- $2 \" \n FROM dual /* $9 */"}
 		case 1:
@@ -327,6 +351,14 @@ func c16Run(c *fw.Case) {
 		case 2:
 			t.pieces = []string{"SELECT ", " AS v --\r$2\n FROM dual --"}
 			feats = append(feats, "comment.tab")
+		case 4:
+			// the parser's other line comments: # ... and // ...
+			t.pieces = []string{"SELECT ", " AS v # $2 ' requested by $3\nFROM dual // $4 \" \n WHERE 1 = 1 # $9"}
+			feats = append(feats, "comment.hash")
+		case 5:
+			// a byte that is not valid UTF-8 in the static text: nothing after it is lost
+			t.pieces = []string{"SELECT /* caf\xe9 $2 */ ", " AS v FROM dual WHERE 'na\xefve' = 'na\xefve' -- \xff $3"}
+			feats = append(feats, "tpl.badutf8")
 		case 3:
 			// a backslash at the end of a line comment hides nothing: the
 			// placeholder on the next line is a placeholder
@@ -434,6 +466,10 @@ func c16Run(c *fw.Case) {
 			c.Violate("exec", fmt.Sprintf("the sanitized echo query failed: %v", o.Describe()), det)
 			return
 		}
+		if len(o.Rows) == 0 {
+			c.Violate("echo", "the sanitized echo query returned no row", det)
+			return
+		}
 		row, _ := o.Rows[0].(map[string]any)
 		expect := map[string]any{}
 		switch kind {
@@ -446,6 +482,9 @@ func c16Run(c *fw.Case) {
 			expect["a"], expect["b"], expect["c"] = exact(t.args[0]), exact(t.args[1]), exact(t.args[0])
 		case "tpl.protected.single":
 			expect["a"], expect["v"] = "$2 $1 it's", exact(t.args[0])
+			if t.note == "backslash" {
+				expect["a"] = "$2 it's $1 \\"
+			}
 		case "tpl.protected.double":
 			expect["a"], expect["v"] = "$3 $1", exact(t.args[0])
 		case "tpl.protected.backtick":
@@ -537,6 +576,13 @@ func c16Errors(c *fw.Case, force string) {
 			c.Feature("err.missing.huge")
 		}
 		args = []any{c16Arg(c, "", &fs), c16Arg(c, "", &fs)}
+	case "err.nan":
+		// NaN and the infinities have no literal
+		tpl = "SELECT $1 AS a, $2 AS b FROM dual"
+		args = []any{gen.Pick(c.R, []float64{math.NaN(), math.Inf(1), math.Inf(-1)}), c16Arg(c, "", &fs)}
+		if c.Chance(0.5) {
+			args[0], args[1] = args[1], args[0]
+		}
 	case "err.unused":
 		tpl = "SELECT $1 AS a FROM dual"
 		args = []any{c16Arg(c, "", &fs), c16Arg(c, "", &fs)}
